@@ -3,6 +3,7 @@ package main
 import (
 	"context"
 	"fmt"
+	"regexp"
 	"sort"
 	"strings"
 	"sync"
@@ -17,10 +18,17 @@ import (
 const sentinelSvc = "zzsentnl"
 const placeholderEph = "ephemerl"
 
+// fwRule: a firewall rule of node `node`, installed through netceptor.ParseFirewallRules.  svc is
+// the ToService field; fromNode / toNode (index+1, 0 = not given) and fromSvc are further fields
+// that must match as well; rx = the fields are written as /regex/ instead of plain strings.
 type fwRule struct {
-	node int
-	svc  string
-	res  string // "drop" | "reject"
+	node     int
+	svc      string
+	res      string // "drop" | "reject"
+	fromNode int
+	toNode   int
+	fromSvc  string
+	rx       bool
 }
 
 type wspec struct {
@@ -41,19 +49,19 @@ func worldSpecs(c *Ctx) []wspec {
 		k = 6
 	}
 	specs := []wspec{
-		{name: "chain2", n: 2, links: [][2]int{{0, 1}}, fw: []fwRule{{1, "dropme", "drop"}, {1, "rejme", "reject"}, {0, "odrop", "drop"}},
+		{name: "chain2", n: 2, links: [][2]int{{0, 1}}, fw: []fwRule{{node: 1, svc: "dropme", res: "drop"}, {node: 1, svc: "rejme", res: "reject"}, {node: 0, svc: "odrop", res: "drop"}},
 			sends: 70 * k, pings: 8 * k, dials: true, listener: true},
-		{name: "chain3", n: 3, links: [][2]int{{0, 1}, {1, 2}}, fw: []fwRule{{2, "dropme", "drop"}, {2, "rejme", "reject"}, {1, "tdrop", "drop"}, {1, "trej", "reject"}, {2, "ping", "reject"}},
+		{name: "chain3", n: 3, links: [][2]int{{0, 1}, {1, 2}}, fw: []fwRule{{node: 2, svc: "dropme", res: "drop"}, {node: 2, svc: "rejme", res: "reject"}, {node: 1, svc: "tdrop", res: "drop"}, {node: 1, svc: "trej", res: "reject"}, {node: 2, svc: "ping", res: "reject"}},
 			sends: 90 * k, pings: 12 * k, dials: true},
-		{name: "star4", n: 4, links: [][2]int{{0, 1}, {0, 2}, {0, 3}}, fw: []fwRule{{1, "dropme", "drop"}, {2, "rejme", "reject"}, {0, "tdrop", "drop"}, {3, "ping", "drop"}},
+		{name: "star4", n: 4, links: [][2]int{{0, 1}, {0, 2}, {0, 3}}, fw: []fwRule{{node: 1, svc: "dropme", res: "drop"}, {node: 2, svc: "rejme", res: "reject"}, {node: 0, svc: "tdrop", res: "drop"}, {node: 3, svc: "ping", res: "drop"}},
 			sends: 90 * k, pings: 12 * k, dials: true},
-		{name: "chain4-notices-blocked", n: 4, links: [][2]int{{0, 1}, {1, 2}, {2, 3}}, fw: []fwRule{{1, "unreach", "drop"}, {3, "rejme", "reject"}},
+		{name: "chain4-notices-blocked", n: 4, links: [][2]int{{0, 1}, {1, 2}, {2, 3}}, fw: []fwRule{{node: 1, svc: "unreach", res: "drop"}, {node: 3, svc: "rejme", res: "reject"}},
 			sends: 40 * k, pings: 6 * k},
 		{name: "chain2-nonutf8", n: 2, links: [][2]int{{0, 1}}, nonUTF8: true, sends: 40 * k, dials: true},
 	}
 	if c.Thorough() {
 		specs = append(specs, wspec{name: "chain4", n: 4, links: [][2]int{{0, 1}, {1, 2}, {2, 3}},
-			fw: []fwRule{{3, "dropme", "drop"}, {2, "trej", "reject"}, {1, "tdrop", "drop"}}, sends: 400, pings: 40, dials: true})
+			fw: []fwRule{{node: 3, svc: "dropme", res: "drop"}, {node: 2, svc: "trej", res: "reject"}, {node: 1, svc: "tdrop", res: "drop"}}, sends: 400, pings: 40, dials: true})
 	}
 	return specs
 }
@@ -161,35 +169,64 @@ func buildWorld(c *Ctx, im *Impl, spec wspec) *world {
 		w.m.Shutdown()
 		return nil
 	}
-	// firewall
-	for i := range w.names {
-		var rules []fwRule
-		for _, f := range spec.fw {
-			if f.node == i {
-				rules = append(rules, f)
-				if f.svc == "unreach" {
-					w.blocked = true
-				}
+	// firewall: the real rule compiler, string and /regex/ form
+	if !spec.nonUTF8 {
+		far := spec.n - 1
+		w.spec.fw = append(w.spec.fw,
+			fwRule{node: far, svc: "rxdrop", res: "drop", rx: true},
+			fwRule{node: far, svc: "fndrop", res: "drop", fromNode: 1, rx: true},
+			fwRule{node: far, svc: "fsdrop", res: "drop", fromSvc: "fsrc", rx: true},
+			fwRule{node: 1, svc: "tndrop2", res: "drop", toNode: far + 1, rx: true},
+			fwRule{node: far, svc: "fnrej", res: "reject", fromNode: 1, fromSvc: "fsrc"})
+		for k := range w.spec.fw {
+			if k%2 == 1 {
+				w.spec.fw[k].rx = true
 			}
 		}
-		if len(rules) == 0 {
+	}
+	for i := range w.names {
+		var data []netceptor.FirewallRuleData
+		for _, f := range w.spec.fw {
+			if f.node != i {
+				continue
+			}
+			if f.svc == "unreach" {
+				w.blocked = true
+			}
+			form := func(x string) string {
+				if f.rx {
+					return "/" + regexp.QuoteMeta(x) + "/"
+				}
+				return x
+			}
+			d := netceptor.FirewallRuleData{"Action": f.res, "ToService": form(f.svc)}
+			if f.fromNode > 0 {
+				d["FromNode"] = form(w.names[f.fromNode-1])
+			}
+			if f.toNode > 0 {
+				d["ToNode"] = form(w.names[f.toNode-1])
+			}
+			if f.fromSvc != "" {
+				d["FromService"] = form(f.fromSvc)
+			}
+			data = append(data, d)
+		}
+		if len(data) == 0 {
 			continue
 		}
-		rs := rules
-		fn := func(md *netceptor.MessageData) netceptor.FirewallResult {
-			for _, f := range rs {
-				if f.svc == md.ToService {
-					if f.res == "drop" {
-						return netceptor.FirewallResultDrop
-					}
-					return netceptor.FirewallResultReject
-				}
-			}
-			return netceptor.FirewallResultContinue
+		fns, err := netceptor.ParseFirewallRules(data)
+		if err != nil {
+			im.Violate("ParseFirewallRules: "+err.Error(), "firewall-setup", spec.name)
+			continue
 		}
-		Must(w.nodes[i].AddFirewallRules([]netceptor.FirewallRuleFunc{fn}, true))
+		Must(w.nodes[i].AddFirewallRules(fns, true))
 	}
 	w.socks = make([][]*sock, spec.n)
+	if !spec.nonUTF8 {
+		if _, err := w.open(0, "fsrc", true, false); err != nil {
+			im.Violate("ListenPacket(fsrc): "+err.Error(), "listen-failed", "fsrc")
+		}
+	}
 	for i := range w.names {
 		for _, s := range svcNames(r, spec.nonUTF8) {
 			if _, err := w.open(i, s, true, false); err != nil {
@@ -295,9 +332,30 @@ func (w *world) path(a, b int) []int {
 	return p
 }
 
+// rule: the verdict of node's firewall about a packet, "" = no rule matches (first match decides)
+func (w *world) ruleFor(node int, fromNode, fromSvc, toNode, toSvc string) string {
+	for _, f := range w.spec.fw {
+		if f.node != node || f.svc != toSvc {
+			continue
+		}
+		if f.fromNode > 0 && w.names[f.fromNode-1] != fromNode {
+			continue
+		}
+		if f.toNode > 0 && w.names[f.toNode-1] != toNode {
+			continue
+		}
+		if f.fromSvc != "" && f.fromSvc != fromSvc {
+			continue
+		}
+		return f.res
+	}
+	return ""
+}
+
+// rule: rules given by destination service alone
 func (w *world) rule(node int, svc string) string {
 	for _, f := range w.spec.fw {
-		if f.node == node && f.svc == svc {
+		if f.node == node && f.svc == svc && f.fromNode == 0 && f.toNode == 0 && f.fromSvc == "" {
 			return f.res
 		}
 	}
@@ -328,7 +386,20 @@ func (w *world) coqWorld(extra map[int][]string, omit *sock) string {
 				if f.res == "reject" {
 					res = "FwReject"
 				}
-				rules = append(rules, fmt.Sprintf("(%s, %s)", HxS(f.svc), res))
+				opt := func(x string) string {
+					if x == "" {
+						return "None"
+					}
+					return "(Some " + HxS(x) + ")"
+				}
+				fn, tn := "", ""
+				if f.fromNode > 0 {
+					fn = w.names[f.fromNode-1]
+				}
+				if f.toNode > 0 {
+					tn = w.names[f.toNode-1]
+				}
+				rules = append(rules, fmt.Sprintf("mkrule %s %s %s %s %s", opt(fn), opt(tn), opt(f.fromSvc), opt(f.svc), res))
 			}
 		}
 		ns = append(ns, fmt.Sprintf("mknode %s %s %s", HxS(id), CoqList(bound), CoqList(rules)))
@@ -519,7 +590,7 @@ func (w *world) runOps(c *Ctx, im *Impl, cf *CaseFile) {
 	r := c.Rng
 	joinSlow := w.slowPing()
 	defer joinSlow(im, cf)
-	kinds := []string{"toolong", "bound", "unbound", "unbound", "unbound", "closed-before", "waiting", "concurrent", "dropme", "rejme", "tdrop", "trej", "odrop",
+	kinds := []string{"rxdrop", "fndrop", "fsdrop", "tndrop2", "fnrej", "toolong", "bound", "unbound", "unbound", "unbound", "closed-before", "waiting", "concurrent", "dropme", "rejme", "tdrop", "trej", "odrop",
 		"ping-svc", "unreach-svc", "unknown-node", "unbound8", "unbound-utf8"}
 	if w.spec.nonUTF8 {
 		kinds = []string{"bound", "unbound", "unbound", "unbound-bad", "closed-before", "waiting"}
@@ -529,6 +600,14 @@ func (w *world) runOps(c *Ctx, im *Impl, cf *CaseFile) {
 	for _, k := range kinds {
 		src := w.liveSocks(0)[0]
 		w.sendCase(c, im, cf, src, far, k, w.mh)
+	}
+	if !w.spec.nonUTF8 {
+		// the rules that look at the source: the same datagrams from another socket and another node
+		for _, k := range []string{"rxdrop", "fndrop", "fsdrop", "tndrop2", "fnrej"} {
+			w.sendCase(c, im, cf, w.liveSocks(0)[1], far, k, w.mh)
+			w.sendCase(c, im, cf, w.liveSocks(1)[0], far, k, w.mh)
+			w.sendCase(c, im, cf, w.liveSocks(0)[0], 1, k, w.mh)
+		}
 	}
 	if w.spec.nonUTF8 {
 		// every socket (also the ones whose name is not UTF-8) tries every kind
@@ -762,7 +841,7 @@ func (w *world) sendCase(c *Ctx, im *Impl, cf *CaseFile, src *sock, dst int, kin
 	// which nodes have a rule for this service, in path order
 	firstRule, firstAt := "", -1
 	for i, nd := range p {
-		if rr := w.rule(nd, svc); rr != "" {
+		if rr := w.ruleFor(nd, w.names[src.ni], src.svc, dstName, svc); rr != "" {
 			firstRule, firstAt = rr, i
 			break
 		}
